@@ -201,3 +201,18 @@ text("c01-regroup-by-roots", "C01", RAW, "            grouped_oids = group_varbi
 text("c01-reverse-within-root", "C01", RAW, "        for varbind in var:\n            containment", "        for varbind in reversed(var):\n            containment")
 text("c01-s-rename-and-genexp", "C01", RAW, "            containment = [varbind.oid in _ for _ in requested_oids]\n            if not any(containment) or varbind.oid in yielded:", "            inside = any(varbind.oid in root for root in requested_oids)\n            if not inside or varbind.oid in yielded:", expect="silent")
 text("c01-s-split-guards", "C01", RAW, "            if not any(containment) or varbind.oid in yielded:\n                LOG.debug(\n                    \"Unexpected device response: Returned VarBind %s \"\n                    \"was either not contained in the requested tree or \"\n                    \"appeared more than once. Skipping!\",\n                    varbind,\n                )\n                continue\n", "            if not any(containment):\n                continue\n            if varbind.oid in yielded:\n                continue\n", expect="silent")
+
+# ---------------------------------------------------------------- C03
+patch("rev-D6-bulk-progress", "C03", "bad0b18-fix__bulk_walks_end_when_the_agent_does_not_return_increasin.diff")
+text("c03-le", "C03", RAW, "            if not requested < retrieved.oid:\n                raise FaultySNMPImplementation(\n                    \"The OID %s is not a successor of %s!\"\n                    % (retrieved.oid, requested)\n                )\n        return output", "            if not requested <= retrieved.oid:\n                raise FaultySNMPImplementation(\n                    \"The OID %s is not a successor of %s!\"\n                    % (retrieved.oid, requested)\n                )\n        return output")
+text("c03-swapped-operands", "C03", RAW, "            if not requested < retrieved.oid:\n                raise FaultySNMPImplementation(\n                    \"The OID %s is not a successor of %s!\"\n                    % (retrieved.oid, requested)\n                )\n        return output", "            if not retrieved.oid < requested:\n                raise FaultySNMPImplementation(\n                    \"The OID %s is not a successor of %s!\"\n                    % (retrieved.oid, requested)\n                )\n        return output")
+text("c03-no-raise-getnext", "C03", RAW, "        for requested, retrieved in zip(oids, output):\n            if not requested < retrieved.oid:\n                raise FaultySNMPImplementation(", "        for requested, retrieved in zip(oids, output):\n            if not requested < retrieved.oid:\n                LOG.warning(")
+text("c03-zip-shifted", "C03", RAW, "        for requested, retrieved in zip(oids, output):", "        for requested, retrieved in zip(oids[1:], output):")
+text("c03-bulk-first-row-only", "C03", RAW, "                if i < num_oids:\n                    requested = oids[i]\n                else:\n                    requested = listing[i - num_oids].oid\n", "                requested = oids[i % num_oids]\n")
+text("c03-bulk-wrong-column", "C03", RAW, "                    requested = listing[i - num_oids].oid\n", "                    requested = listing[i - 1].oid\n")
+text("c03-lenient-continue", "C03", RAW, "                        next_fetches,\n                        exc,\n                    )\n                    break\n                raise", "                        next_fetches,\n                        exc,\n                    )\n                    continue\n                raise")
+text("c03-strict-swallowed", "C03", RAW, "                        next_fetches,\n                        exc,\n                    )\n                    break\n                raise", "                        next_fetches,\n                        exc,\n                    )\n                break")
+text("c03-first-fetch-uncovered", "C03", RAW, "        try:\n            varbinds = await fetcher(oids)\n        except FaultySNMPImplementation as exc:\n            if errors == ERRORS_WARN:\n                LOG.warning(\n                    \"SNMP walk aborted prematurely due to faulty SNMP \"\n                    \"implementation on device %r! Upon running a \"\n                    \"GetNext on OIDs %r it returned the following \"\n                    \"error: %s\",\n                    self.endpoint,\n                    oids,\n                    exc,\n                )\n                return\n            raise\n", "        varbinds = await fetcher(oids)\n")
+text("c03-guard-after-return", "C03", RAW, "            _, listing = await self._bulkget_varbinds(\n                [], oids, max_list_size=bulk_size\n            )\n", "            _, listing = await self._bulkget_varbinds(\n                [], oids, max_list_size=bulk_size\n            )\n            if bulk_size == 1:\n                return listing\n")
+text("c03-s-gt-form", "C03", RAW, "            if not requested < retrieved.oid:\n                raise FaultySNMPImplementation(\n                    \"The OID %s is not a successor of %s!\"\n                    % (retrieved.oid, requested)\n                )\n        return output", "            if not retrieved.oid > requested:\n                raise FaultySNMPImplementation(\n                    \"The OID %s is not a successor of %s!\"\n                    % (retrieved.oid, requested)\n                )\n        return output", expect="silent")
+text("c03-s-ifexp", "C03", RAW, "                if i < num_oids:\n                    requested = oids[i]\n                else:\n                    requested = listing[i - num_oids].oid\n", "                requested = oids[i] if i < len(oids) else listing[i - len(oids)].oid\n", expect="silent")
